@@ -44,6 +44,13 @@ Proof.
       destruct (h (g (m !! N.of_nat (S s)))); [rewrite lookup_insert_ne by congruence|]; exact E.
 Qed.
 
+Lemma line_array_n_eq {A} (g : option N -> A) (m : gmap N N) (n : N) : line_array g m n = line_array_n g m n.
+Proof.
+  unfold line_array, line_array_n. change 1 with (N.of_nat (S 0)). generalize 0%nat as s.
+  induction (N.to_nat n) as [|k IH]; intros s; [reflexivity|].
+  cbn [seq map line_array_from]. f_equal. rewrite IH. f_equal. lia.
+Qed.
+
 (* reading back an array that covers all the lines recovers the line map *)
 Lemma decode_line_array {A} (g : option N -> A) (h : A -> option N) (m : gmap N N) (n : N) :
   (forall k c, m !! k = Some c -> 1 <= k /\ k <= n) ->
